@@ -47,7 +47,7 @@ func VerifHarness_C17_sqlite_restore() {
 	t1.SetPrimaryKey(schema.NewPrimaryKey(t1.Columns[0]))
 	fk := schema.NewForeignKey("f0").SetTable(t0).AddColumns(c2).SetRefTable(t1).AddRefColumns(t1.Columns[0]).SetOnDelete(schema.Cascade)
 	t0.AddForeignKeys(fk)
-	set := verifChoice("set", 3)
+	set := verifChoice("set", 5)
 	var changes []schema.Change
 	wantIndex, wantCol, wantChk, wantFK, wantOldDef := false, false, false, false, false
 	switch set {
@@ -73,6 +73,19 @@ func VerifHarness_C17_sqlite_restore() {
 		changes = []schema.Change{&schema.ModifyTable{T: t0, Changes: []schema.Change{&schema.DropColumn{C: c1}, &schema.DropIndex{I: i0}}}}
 		wantCol = true
 	}
+	// sets 3 and 4: an inspected UNIQUE column constraint (sqlite_autoindex_*, origin "u")
+	// is re-created under a derived name; the reverse must drop what the forward creates.
+	if set >= 3 {
+		wantIndex, wantCol, wantChk, wantFK, wantOldDef = false, false, false, false, false
+		auto := schema.NewIndex("sqlite_autoindex_t0_1").SetUnique(true).AddColumns(c2)
+		auto.AddAttrs(&IndexOrigin{O: "u"})
+		if set == 3 {
+			t0.AddIndexes(auto)
+			changes = []schema.Change{&schema.AddTable{T: t0}}
+		} else {
+			changes = []schema.Change{&schema.ModifyTable{T: t0, Changes: []schema.Change{&schema.AddIndex{I: auto}}}}
+		}
+	}
 	empty := ""
 	p, err := DefaultPlan.PlanChanges(context.Background(), "p", changes, func(o *migrate.PlanOptions) { o.SchemaQualifier = &empty })
 	verifAssert(err == nil, "destructive change set is planned")
@@ -89,6 +102,16 @@ func VerifHarness_C17_sqlite_restore() {
 		rs, err := c.ReverseStmts()
 		verifAssert(err == nil, "reverse statements are well formed")
 		all = append(all, rs...)
+		// an index that is created is dropped under the same name by its reverse
+		for _, kw := range []string{"CREATE INDEX ", "CREATE UNIQUE INDEX "} {
+			if strings.HasPrefix(c.Cmd, kw) {
+				name := c.Cmd[len(kw):]
+				if k := strings.Index(name, " "); k >= 0 {
+					name = name[:k]
+				}
+				verifAssert(len(rs) == 1 && rs[0] == "DROP INDEX "+name, "the reverse of CREATE INDEX drops the index that was created")
+			}
+		}
 	}
 	rev := strings.Join(all, "\n")
 	verifObserve("reverse", rev)
